@@ -8,6 +8,7 @@
 -/
 import Cellml.Xml.Escape
 import Cellml.Xml.Attrs
+import Cellml.Generated.Attributes
 namespace Cellml.Props.C02
 open Cellml.Xml
 
@@ -136,6 +137,18 @@ theorem variable_roundtrip (v : VarRec) : loadVariable (printVariable v) = v := 
   unfold loadVariable printVariable
   by_cases h1 : n = "" <;> by_cases h2 : u = "" <;> by_cases h3 : iv = "" <;> by_cases h4 : itf = "" <;> by_cases h5 : i = "" <;>
     simp [h1, h2, h3, h4, h5, loadVarStep]
+
+/-! ### the attribute vocabulary of printer and parser (tables regenerated from printer.cpp and parser.cpp) -/
+
+/-- T-tie: every attribute name the printer writes on an element is one the parser looks for on that element, and every
+    attribute the parser looks for is written back by the printer — except the two CellML 1.x interface attributes, which
+    are merged into `interface` (C14) -/
+theorem attribute_vocabulary :
+    (∀ r ∈ Cellml.Generated.Attributes.rows, ∀ a ∈ r.2.2, a ∈ r.2.1)
+      ∧ (∀ r ∈ Cellml.Generated.Attributes.rows, ∀ a ∈ r.2.1, a ∈ r.2.2 ∨ a = "public_interface" ∨ a = "private_interface")
+      ∧ Cellml.Generated.Attributes.rows.map (·.1) = ["model", "component", "units", "variable", "connection", "encapsulation", "import", "reset"]
+      ∧ (∀ r ∈ Cellml.Generated.Attributes.rows, r.2.2 ≠ []) := by
+  decide +kernel
 
 /-! non-vacuity: numbers 1 and 2 with their renderings -/
 def exShow (n : Nat) : String := if n = 2 then "2" else "1"
